@@ -277,3 +277,49 @@ func zzStageFile(repo, raw string) {
 	os.MkdirAll(filepath.Dir(p), 0o755)
 	os.WriteFile(p, []byte("x"), 0o644)
 }
+
+// ---- directory-tree scenarios (C18 discovery) ----
+
+var zzTreeBase, zzTreeOldWd string
+
+// zzTreeRoot natively: builds <tmp>/x/y, creates the .ergo directories the scenario names and
+// makes <tmp>/x the working directory (restored by zzWorldCleanup).
+func zzTreeRoot() string {
+	base, err := os.MkdirTemp("", "zztree")
+	if err != nil {
+		panic(err)
+	}
+	if r, err := filepath.EvalSymlinks(base); err == nil {
+		base = r
+	}
+	zzTreeBase = base
+	dirs := []string{base, filepath.Join(base, "x"), filepath.Join(base, "x", "y")}
+	os.MkdirAll(dirs[2], 0o755)
+	for i, d := range dirs {
+		if zzLoad().Values["tree.ergo."+strconv.Itoa(i)] == "true" {
+			os.MkdirAll(filepath.Join(d, ".ergo"), 0o755)
+		}
+	}
+	zzTreeOldWd, _ = os.Getwd()
+	os.Chdir(dirs[1])
+	return base
+}
+
+func zzTreeHasErgo(depth int) bool {
+	return zzLoad().Values["tree.ergo."+strconv.Itoa(depth)] == "true"
+}
+
+func zzSamePath(got, want string) bool {
+	a, err1 := filepath.Abs(got)
+	b, err2 := filepath.Abs(want)
+	if err1 != nil || err2 != nil {
+		return false
+	}
+	if r, err := filepath.EvalSymlinks(a); err == nil {
+		a = r
+	}
+	if r, err := filepath.EvalSymlinks(b); err == nil {
+		b = r
+	}
+	return a == b
+}
